@@ -326,20 +326,31 @@ theorem hsEllipsoid_contact_iff_overlap (sqrt : K → K) (hsq : SqrtSpec sqrt) (
     rw [e] at hpos ⊢
     linarith
 
-/-- exact geometry: the depth is the largest half-space coordinate `x_H` over the ellipsoid, and the normal is the
-half space's outward normal `−x_H` expressed in ground -/
-theorem hsEllipsoid_depth_normal_exact (sqrt : K → K) (hsq : SqrtSpec sqrt) (i1 i2 : Nat) (X1 X2 : Xf K) (a : V3 K)
-    (ha : a.x ≠ 0 ∧ a.y ≠ 0 ∧ a.z ≠ 0) (hR2 : IsRot X2.R)
-    (hr0 : V3.dot (Xf.invComp X1 X2).R.r0 (Xf.invComp X1 X2).R.r0 = 1)
+/-- exact geometry (`IsRot X1.R`, `IsRot X2.R`): the depth is the largest half-space coordinate `x_H` over the ellipsoid;
+the normal is the half space's outward unit normal `−x_H` expressed in ground; and the contact point, in half-space
+coordinates, is the deepest point of the ellipsoid moved back by half the depth: `(depth/2, y_H, z_H)` of the support point -/
+theorem hsEllipsoid_depth_normal_point_exact (sqrt : K → K) (hsq : SqrtSpec sqrt) (i1 i2 : Nat) (X1 X2 : Xf K) (a : V3 K)
+    (ha : a.x ≠ 0 ∧ a.y ≠ 0 ∧ a.z ≠ 0) (hR1 : IsRot X1.R) (hR2 : IsRot X2.R)
     (c : Contact K) (hc : hsEllipsoid sqrt i1 i2 X1 X2 a = some c) :
     (∀ x : V3 K, 0 ≤ Ell.value a x → (Xf.app (Xf.invComp X1 X2) x).x ≤ c.depth) ∧
-    c.normal = V3.neg (M3.mulVec X1.R ⟨1, 0, 0⟩) ∧ c.s1 = i1 ∧ c.s2 = i2 := by
+    c.normal = V3.neg (M3.mulVec X1.R ⟨1, 0, 0⟩) ∧ V3.normSq c.normal = 1 ∧
+    Xf.inv X1 c.point = ⟨c.depth / 2,
+      (Xf.app (Xf.invComp X1 X2) (Ell.support sqrt a (Xf.invComp X1 X2).R.r0)).y,
+      (Xf.app (Xf.invComp X1 X2) (Ell.support sqrt a (Xf.invComp X1 X2).R.r0)).z⟩ ∧
+    c.depth = (Xf.app (Xf.invComp X1 X2) (Ell.support sqrt a (Xf.invComp X1 X2).R.r0)).x ∧
+    c.s1 = i1 ∧ c.s2 = i2 := by
+  have hT : IsRot (Xf.invComp X1 X2).R := isRot_invComp hR1 hR2
+  have hr0 := hT.r00
   unfold hsEllipsoid at hc
   simp only [] at hc
   split_ifs at hc with h
   simp only [Option.some.injEq] at hc
   subst hc
-  refine ⟨?_, ?_, rfl, rfl⟩
+  have hn : (hsEllLocal sqrt (Xf.invComp X1 X2) a).1 = M3.tmulVec X2.R (M3.mulVec X1.R ⟨-1, 0, 0⟩) := by
+    simp only [hsEllLocal, tmulVec_invComp]
+  have hnormal : M3.mulVec X2.R (hsEllLocal sqrt (Xf.invComp X1 X2) a).1 = V3.neg (M3.mulVec X1.R ⟨1, 0, 0⟩) := by
+    rw [hn, mul_tmul hR2, ← mulVec_neg]; simp [V3.neg]
+  refine ⟨?_, hnormal, ?_, ?_, (hsEllLocal_is_support sqrt _ a).2.1, rfl, rfl⟩
   · intro x hx
     simp only [(hsEllLocal_is_support sqrt _ a).2.1]
     generalize Xf.invComp X1 X2 = T at hr0 ⊢
@@ -348,10 +359,30 @@ theorem hsEllipsoid_depth_normal_exact (sqrt : K → K) (hsq : SqrtSpec sqrt) (i
     have e : ∀ y : V3 K, (Xf.app T y).x = V3.dot T.R.r0 y + T.p.x := by
       intro y; simp only [Xf.app, M3.mulVec, V3.add]
     rw [e, e]; linarith
-  · have e : (hsEllLocal sqrt (Xf.invComp X1 X2) a).1 = M3.tmulVec X2.R (M3.mulVec X1.R ⟨-1, 0, 0⟩) := by
-      simp only [hsEllLocal, tmulVec_invComp]
-    simp only [e, mul_tmul hR2]
-    rw [← mulVec_neg]; simp [V3.neg]
+  · simp only [hnormal]
+    have : V3.neg (M3.mulVec X1.R (⟨1, 0, 0⟩ : V3 K)) = M3.mulVec X1.R ⟨-1, 0, 0⟩ := by rw [← mulVec_neg]; simp [V3.neg]
+    rw [this, normSq_mulVec hR1]; simp [V3.normSq, V3.dot]
+  · -- inv X1 (app X2 w) = app T w, and T.R n = −e_x
+    simp only
+    rw [← app_invComp]
+    obtain ⟨hl, hd, hnn⟩ := hsEllLocal_is_support sqrt (Xf.invComp X1 X2) a
+    rw [hl, hd, hnn]
+    generalize Xf.invComp X1 X2 = T at hT ⊢
+    generalize Ell.support sqrt a T.R.r0 = L
+    have hTn : M3.mulVec T.R (V3.neg T.R.r0) = ⟨-1, 0, 0⟩ := by
+      obtain ⟨_, _, _, _, _, _, r00, _, _, r01, r02, _⟩ := hT
+      simp only [M3.mulVec, V3.neg, V3.dot] at *
+      apply V3.ext'
+      · simp only; linear_combination (-1 : K) * r00
+      · simp only; linear_combination (-1 : K) * r01
+      · simp only; linear_combination (-1 : K) * r02
+    have e : Xf.app T (V3.add L (V3.smul ((Xf.app T L).x / 2) (V3.neg T.R.r0)))
+        = V3.add (Xf.app T L) (V3.smul ((Xf.app T L).x / 2) (M3.mulVec T.R (V3.neg T.R.r0))) := by
+      simp only [Xf.app, mulVec_add, mulVec_smul]
+      simp only [V3.add, V3.smul]; apply V3.ext' <;> (simp only; ring)
+    rw [e, hTn]
+    simp only [V3.add, V3.smul]
+    apply V3.ext' <;> (simp only; ring)
 
 /-- common rigid motion: the contact moves with it, depth and radii unchanged -/
 theorem hsEllipsoid_rigid_motion_invariance (sqrt : K → K) (i1 i2 : Nat) (G X1 X2 : Xf K) (hG : IsRot G.R) (a : V3 K) :
@@ -371,10 +402,26 @@ theorem hsEllipsoid_rigid_motion_invariance (sqrt : K → K) (i1 i2 : Nat) (G X1
 
 /-! ## the two shapes given in the other order (`GeneralContactSubsystem` dispatch) -/
 
+/-- contract assumed of the unmodelled `ConvexConvex::processObjects` when it is handed two ellipsoids in the other
+order: same contact with roles swapped and normal reversed; and its result carries the indices it was given.  (The harness
+evaluates exactly this on the real code: keys `ConvexConvex.ellipsoid_ellipsoid.*.swap`; it FAILS for some deeply
+interpenetrating poses — known finding — so the theorem below is conditional on it for the ellipsoid/ellipsoid case.) -/
+structure ConvexContract (convex : Placed K → Placed K → Option (Contact K)) : Prop where
+  swap : ∀ (ia ib : Nat) (a b : V3 K) (XA XB : Xf K),
+    convex ⟨ib, .ellipsoid b, XB⟩ ⟨ia, .ellipsoid a, XA⟩ =
+      (convex ⟨ia, .ellipsoid a, XA⟩ ⟨ib, .ellipsoid b, XB⟩).map
+        (fun c => { c with s1 := c.s2, s2 := c.s1, normal := V3.neg c.normal })
+  roles : ∀ (P Q : Placed K) (c : Contact K), convex P Q = some c → c.s1 = P.idx ∧ c.s2 = Q.idx
+
 /-- `detect A B` and `detect B A` describe the same physical contact: same point, depth, radii, and the same normal
-when oriented from `A` to `B` (i.e. the raw normal is reversed exactly when the roles `s1,s2` are swapped) -/
-theorem detect_swap_symmetry (sqrt : K → K) (hsq : SqrtSpec sqrt) (A B : Placed K) (hne : A.idx ≠ B.idx) :
-    match detect sqrt A B, detect sqrt B A with
+when oriented from `A` to `B` (the raw normal is reversed exactly when the roles `s1,s2` are swapped).
+Content per type combination: sphere/sphere by `sphereSphere_swap_symmetry`; ellipsoid/ellipsoid by the assumed
+`ConvexContract`; half space/sphere, half space/ellipsoid, ellipsoid/sphere (either order): the dispatch makes the very same
+call for both orders (that is the content: the registered order wins); half space/half space: no algorithm is
+registered in either order (both `none`). -/
+theorem detect_swap_symmetry (sqrt : K → K) (hsq : SqrtSpec sqrt) (convex : Placed K → Placed K → Option (Contact K))
+    (hconv : ConvexContract convex) (A B : Placed K) (hne : A.idx ≠ B.idx) :
+    match detect sqrt convex A B, detect sqrt convex B A with
     | none, none => True
     | some c, some c' => c'.point = c.point ∧ c'.depth = c.depth ∧ c'.rad1 = c.rad1 ∧ c'.rad2 = c.rad2 ∧
         c'.normalFrom A.idx = c.normalFrom A.idx ∧ ((c'.s1 = c.s1 ∧ c'.s2 = c.s2) ∨ (c'.s1 = c.s2 ∧ c'.s2 = c.s1))
@@ -400,8 +447,33 @@ theorem detect_swap_symmetry (sqrt : K → K) (hsq : SqrtSpec sqrt) (A B : Place
       obtain ⟨_, _, _, _, _, _, h1, h2⟩ := hs
       simp only [Option.map_some, Contact.normalFrom, h1, h2]
       simp [Ne.symm hne, V3.neg]
+  · -- sphere / ellipsoid: only (ellipsoid, sphere) is registered, both orders make that call
+    generalize convex _ _ = o
+    cases o <;> simp
   · generalize hsEllipsoid sqrt ib ia Xb Xa _ = o
     cases o <;> simp
+  · generalize convex _ _ = o
+    cases o <;> simp
+  · -- ellipsoid / ellipsoid: the assumed contract of ConvexConvex
+    rename_i a b
+    rw [hconv.swap ia ib a b Xa Xb]
+    cases h : convex ⟨ia, .ellipsoid a, Xa⟩ ⟨ib, .ellipsoid b, Xb⟩ with
+    | none => simp
+    | some c =>
+      obtain ⟨h1, h2⟩ := hconv.roles _ _ c h
+      simp only at h1 h2
+      simp only [Option.map_some, Contact.normalFrom, h1, h2]
+      simp [Ne.symm hne, V3.neg]
+
+/-- `detect` is well defined on every pair except half space / half space: that is the only combination with no
+registered algorithm in either order (so "both `none`" in `detect_swap_symmetry` for another combination means the
+algorithm itself reported no contact) -/
+theorem detect_registered (sqrt : K → K) (convex : Placed K → Placed K → Option (Contact K)) (A B : Placed K) :
+    (registered sqrt convex A B).isSome = true ∨ (registered sqrt convex B A).isSome = true ∨
+    (A.shape = .halfSpace ∧ B.shape = .halfSpace) := by
+  obtain ⟨ia, sa, Xa⟩ := A
+  obtain ⟨ib, sb, Xb⟩ := B
+  cases sa <;> cases sb <;> simp [registered]
 
 /-! ## non-vacuity -/
 
